@@ -31,8 +31,7 @@ func checkC11(c *Check) {
 		for _, b := range fn.Blocks {
 			for _, in := range b.Instrs {
 				if g, ok := in.(*ssa.Go); ok {
-					if mc, ok := g.Call.Value.(*ssa.MakeClosure); ok {
-						cl := mc.Fn.(*ssa.Function)
+					if cl := spawnedFn(&g.Call); cl != nil && inModule(cl) && len(cl.Blocks) > 0 {
 						for _, ci := range callInstrs(cl) {
 							if ci.Common().IsInvoke() && ci.Common().Method.Name() == "Done" {
 								body, goI = cl, g
@@ -429,7 +428,8 @@ func checkC11(c *Check) {
 			}
 		}
 	}
-	c.Expect("5/destroy", 8)
+	checkDestroyKillsAndReaps(c, "5/destroy")
+	c.Expect("5/destroy", 10)
 }
 
 // describeCmdKind renders the constant Cmd field of a cmd literal passed by value.
